@@ -117,7 +117,7 @@ func init() { registry["C01"] = runC01 }
 
 func runC01(c *Ctx) {
 	c.R.Rule = "stress episodes = configuration (key type, hashing incl. forced primary-hash collision classes, capacity, TTL share, goroutines, delay injection) x free-running run; every hit of Get/IterValues is checked for provenance; distinct = per-key 4-grams of event kinds (with outcome) per configuration; non-trivial when the 4-gram contains at least one hit or callback"
-	n := c.N(32, 480)
+	n := c.N(32, 256)
 	for i := 0; i < n; i++ {
 		if i%c.NParts != c.Part {
 			continue
@@ -142,7 +142,7 @@ func runC01(c *Ctx) {
 			EndWith: "close", Stream: uint64(i),
 		}
 		o.Mix["clear"] = rng.Intn(2)
-		o.OpsPerPhase = c.N(12000, 20000) / o.Workers
+		o.OpsPerPhase = c.N(12000, 14000) / o.Workers
 		c.J.Case(o)
 		res := runStress(c, o)
 		accountStress(c, "C01", o, res, stressChecks{Prov: true})
@@ -156,7 +156,7 @@ func init() { registry["C04"] = runC04 }
 
 func runC04(c *Ctx) {
 	c.R.Rule = "stress episodes over (write-buffer size 1..32768, capacity from rejecting almost everything to admitting everything, TTLs with 1-second buckets, ShouldUpdate refusals, concurrent Clear, end with Close or Clear;Close) with delay injection; per-value life-cycle automaton over the merged event log; distinct = per-key 4-grams of event kinds per configuration"
-	n := c.N(32, 480)
+	n := c.N(32, 256)
 	for i := 0; i < n; i++ {
 		if i%c.NParts != c.Part {
 			continue
@@ -178,7 +178,7 @@ func runC04(c *Ctx) {
 			o.Mix["clear"] = 1
 		}
 		o.Name = fmt.Sprintf("c04-buf%d-cap%d-nk%d-su%s-end%s", o.Cfg.SetBuf, o.Cfg.MaxCost, nk, o.Cfg.ShouldUpdate, o.EndWith)
-		o.OpsPerPhase = c.N(8000, 14000) / o.Workers
+		o.OpsPerPhase = c.N(8000, 10000) / o.Workers
 		c.J.Case(o)
 		res := runStress(c, o)
 		accountStress(c, "C04", o, res, stressChecks{Lifecycle: true, HitAfterExit: true})
@@ -195,7 +195,7 @@ func init() {
 
 func runQuiescent(c *Ctx, prop string) {
 	c.R.Rule = "stress episodes (evictions, rejections, expiries with 1-second buckets, buffer-full drops, Del, Clear at barriers) with all clients parked at barriers; at each quiescent point (Wait, applier paused) a white-box snapshot is compared with the public readings; distinct = per-key 4-grams of event kinds per configuration; every snapshot counts as an observation"
-	n := c.N(32, 400)
+	n := c.N(32, 256)
 	offs := map[string]uint64{"C13": 1300000, "C03": 300000, "C17": 1700000}[prop]
 	for i := 0; i < n; i++ {
 		if i%c.NParts != c.Part {
@@ -244,7 +244,7 @@ func runQuiescent(c *Ctx, prop string) {
 			}
 		}
 		o.Name = fmt.Sprintf("%s-buf%d-cap%d-nk%d-cost%s-int%v-m%v", strings.ToLower(prop), o.Cfg.SetBuf, o.Cfg.MaxCost, nk, o.CostMode, !o.Cfg.IgnoreInternalCost, o.Cfg.Metrics)
-		o.OpsPerPhase = c.N(4000, 8000) / o.Workers
+		o.OpsPerPhase = c.N(4000, 5000) / o.Workers
 		c.J.Case(o)
 		res := runStress(c, o)
 		var ch stressChecks
@@ -270,7 +270,7 @@ func init() { registry["C05S"] = runC05Stress }
 // owner returned, every Get(k) by anyone misses until the owner calls Set(k) again.
 func runC05Stress(c *Ctx) {
 	c.R.Rule = "free-running owners: each key is written by one goroutine only; per-key rule over the merged log: Del(k) returned, a later Wait() by the owner returned => every Get(k) that starts afterwards and returns before the owner's next Set(k) is called misses; distinct = per-key 4-grams of event kinds per configuration; non-trivial windows are counted"
-	n := c.N(24, 300)
+	n := c.N(24, 160)
 	for i := 0; i < n; i++ {
 		if i%c.NParts != c.Part {
 			continue
@@ -291,7 +291,7 @@ func runC05Stress(c *Ctx) {
 			o.Cfg.Collide = lab.Pick(rng, []int{2, 4})
 		}
 		o.Name = fmt.Sprintf("c05s-w%d-nk%d-cap%d-buf%d-d%.0f-collide%d", workers, nk, o.Cfg.MaxCost, o.Cfg.SetBuf, o.DelayLevel, o.Cfg.Collide)
-		o.OpsPerPhase = c.N(6000, 12000) / workers
+		o.OpsPerPhase = c.N(6000, 7000) / workers
 		c.J.Case(o)
 		res := runStress(c, o)
 		accountStress(c, "C05", o, res, stressChecks{})
